@@ -375,7 +375,13 @@ impl<C: CrcCalculator> Encapsulator<C> {
             }
 
             pkt_type = PktType::FirstFragPkt;
-            pdu_len_encapsulated = buffer_len - min_header_len;
+            // the fragment is limited by the buffer and by the 12 bits GSE length
+            let pdu_len_max = GSE_LEN_MAX - (FRAG_ID_LEN + TOTAL_LENGTH_LEN + PROTOCOL_LEN + label_len);
+            pdu_len_encapsulated = if buffer_len - min_header_len < pdu_len_max {
+                buffer_len - min_header_len
+            } else {
+                pdu_len_max
+            };
             gse_len =
                 (FRAG_ID_LEN + TOTAL_LENGTH_LEN + PROTOCOL_LEN + label_len + pdu_len_encapsulated)
                     as u16;
@@ -672,8 +678,22 @@ impl<C: CrcCalculator> Encapsulator<C> {
                 return Err(EncapError::ErrorPduLength);
             }
 
+            // check the header len
+            // if the header and its extensions cannot fit in the 12 bits GSE length
+            let frag_header_len =
+                FRAG_ID_LEN + TOTAL_LENGTH_LEN + PROTOCOL_LEN + label_len + total_len_extensions;
+            if GSE_LEN_MAX < frag_header_len {
+                return Err(EncapError::ErrorSizeBuffer);
+            }
+
             pkt_type = PktType::FirstFragPkt;
-            pdu_len_encapsulated = buffer_len - min_header_len;
+            // the fragment is limited by the buffer and by the 12 bits GSE length
+            let pdu_len_max = GSE_LEN_MAX - frag_header_len;
+            pdu_len_encapsulated = if buffer_len - min_header_len < pdu_len_max {
+                buffer_len - min_header_len
+            } else {
+                pdu_len_max
+            };
             gse_len = (FRAG_ID_LEN
                 + TOTAL_LENGTH_LEN
                 + PROTOCOL_LEN
@@ -882,7 +902,13 @@ pub fn encap_preview(
         }
 
         pkt_type = PktType::FirstFragPkt;
-        pdu_len_encapsulated = buffer_len - min_header_len;
+        // the fragment is limited by the buffer and by the 12 bits GSE length
+        let pdu_len_max = GSE_LEN_MAX - (FRAG_ID_LEN + TOTAL_LENGTH_LEN + PROTOCOL_LEN + label_len);
+        pdu_len_encapsulated = if buffer_len - min_header_len < pdu_len_max {
+            buffer_len - min_header_len
+        } else {
+            pdu_len_max
+        };
         gse_len = (FRAG_ID_LEN + TOTAL_LENGTH_LEN + PROTOCOL_LEN + label_len + pdu_len_encapsulated)
             as u16;
         pkt_len = gse_len + (FIXED_HEADER_LEN) as u16;
